@@ -125,8 +125,11 @@ def run(ctx):
                 w = gr.path(starts, bad, avoid=pd)
         ctx.check("R1b-removed-content-parked", wherer, ok, "every entry whose content is removed is moved aside with mover.pre_delete (journalled) on every path", message="content scheduled for removal can be left in place (later overwritten outside the journal): a failure afterwards cannot restore it", witness=gr.show_path(w) if w else None)
         # ---- R3 / R4 on apply ---------------------------------------------------
+        from ..astutil import bind_roles, canonicalise
+
         fn = repo.func(rel, f"{cls}.apply")
         where = f"{rel}:{cls}.apply"
+        fn = canonicalise(fn, bind_roles(fn, {"mover": ("assign", "~_FileMover\\(\\) if .*")}, where))
         g = build_cfg(fn, fallible=fallible)
         ctx.fact(len(g.nodes))
         p1 = need(where, calling(g, attr="_apply_removals", recv="self"), "_apply_removals(mover)")
